@@ -27,6 +27,10 @@ def plan(tier, seed):
     n_json, per_json = (10, 200) if q else (16, 3500)
     for k in range(n_json):
         specs.append({"stratum": "json-x9-options", "family": "json", "n": per_json, "k": k, "all_options": True, "clean": True})
+    if not q:
+        for k in range(8):
+            specs.append({"stratum": "json-large-documents", "family": "json", "n": 150, "k": k, "clean": True, "profile": "large",
+                          "case_timeout": 120})
     per_f = 300 if q else 6000
     for fam in ["basic", "plist", "pyobj", "xml", "csv"]:
         specs.append({"stratum": f"family-{fam}", "family": fam, "n": per_f, "k": 0, "clean": True, "all_options": fam in ("basic",)})
